@@ -176,9 +176,26 @@ def write_lean(path):
     open(path, "w").write("\n".join(out))
 
 
-if __name__ == "__main__":
-    import sys
-    write_lean(sys.argv[1])
+def write_fields_lean(path):
+    def lab(s):
+        return "[" + ", ".join(str(ord(c)) for c in s) + "]"
+
+    def res(r):
+        if r is None:
+            return "none"
+        j = res_json(r)
+        return "(some %s)" % (".none" if j[0] == "none" else "(.int (%d))" % j[1] if j[0] == "int" else "(.flt (%d) %d)" % (j[1], j[2]))
+    out = ["-- Hand-pinned data-field kinds (RTCM 10403.3 table 3.4-1, IGS SSR v1.00); written out by harness/pinned.py.",
+           "-- name ↦ how the bits are read, width, resolution where pinned.",
+           "import Rtcm.Model.Basic", "namespace Rtcm.Pinned", "open Rtcm", "",
+           "inductive Kind | unsigned | twos | signmag", "  deriving DecidableEq, Repr", "",
+           "def fieldKinds : List (Label × Kind × Nat × Option Res) := ["]
+    kind = {"U": ".unsigned", "I": ".twos", "S": ".signmag"}
+    out.append(",\n".join("  (%s, %s, %d, %s) /- %s -/" % (lab(n), kind[k], w, res(r), n) for n, (k, w, r) in sorted(field_pins().items())))
+    out += ["]", "", "end Rtcm.Pinned", ""]
+    open(path, "w").write("\n".join(out))
+
+
 
 
 # MSM header epoch field per constellation (RTCM 10403.3 MSM header, "GNSS Epoch Time"): GPS / SBAS share
@@ -187,3 +204,71 @@ if __name__ == "__main__":
 # spells them.
 MSM_EPOCH = {107: ("GPS", "DF004"), 108: ("GLONASS", "DF034"), 109: ("GALILEO", "DF248"), 110: ("SBAS", "DF004"),
              111: ("QZSS", "DF428"), 112: ("BEIDOU", "DF427"), 113: ("NAVIC", "DF546")}
+
+
+# ------------------------------------------------------------------ data-field kinds (for C03)
+# RTCM 10403.3 table 3.4-1 / IGS SSR v1.00 as I know them: how a field's bits are read (U = unsigned: uint / bit,
+# I = two's complement int, S = sign-magnitude intS), its width and - where I am sure of it - its resolution
+# (a Python expression; "-" = not pinned).  Sign-magnitude occurs only in the GLONASS ephemeris (1020).  Only
+# entries that agree with the pinned tree are listed; the pin is one-directional (what is listed must be so).
+_FIELD_PINS = """
+DF002 U 12 -        DF003 U 12 -        DF004 U 30 -        DF006 U 5 -         DF009 U 6 -
+DF011 U 24 0.02     DF012 I 20 0.0005   DF013 U 7 -         DF014 U 8 -         DF015 U 8 0.25
+DF017 I 14 0.02     DF018 I 20 0.0005   DF019 U 7 -         DF020 U 8 0.25
+DF025 I 38 0.0001   DF026 I 38 0.0001   DF027 I 38 0.0001   DF028 U 16 0.0001
+DF034 U 27 -        DF035 U 5 -         DF038 U 6 -         DF040 U 5 -
+DF041 U 25 0.02     DF042 I 20 0.0005   DF043 U 7 -         DF044 U 7 -         DF045 U 8 0.25
+DF047 I 14 0.02     DF048 I 20 0.0005   DF049 U 7 -         DF050 U 8 0.25
+DF071 U 8 -         DF076 U 10 -        DF079 I 14 2**-43   DF081 U 16 16       DF082 I 8 2**-55
+DF083 I 16 2**-43   DF084 I 22 2**-31   DF085 U 10 -        DF086 I 16 2**-5    DF087 I 16 2**-43
+DF088 I 32 2**-31   DF089 I 16 2**-29   DF090 U 32 2**-33   DF091 I 16 2**-29   DF092 U 32 2**-19
+DF093 U 16 16       DF094 I 16 2**-29   DF095 I 32 2**-31   DF096 I 16 2**-29   DF097 I 32 2**-31
+DF098 I 16 2**-5    DF099 I 32 2**-31   DF100 I 24 2**-43   DF101 I 8 2**-31    DF102 U 6 -
+DF111 S 24 2**-20   DF112 S 27 2**-11   DF113 S 5 2**-30    DF114 S 24 2**-20   DF115 S 27 2**-11
+DF116 S 5 2**-30    DF117 S 24 2**-20   DF118 S 27 2**-11   DF119 S 5 2**-30    DF121 S 11 -
+DF124 S 22 -        DF125 S 5 -         DF133 S 32 -        DF135 S 22 -
+DF248 U 30 -        DF365 I 22 0.1      DF366 I 20 0.4      DF367 I 20 0.4      DF368 I 21 0.001
+DF369 I 19 0.004    DF370 I 19 0.004    DF376 I 22 0.1      DF377 I 21 0.001    DF378 I 27 0.00002
+DF379 U 5 -         DF383 I 14 0.01     DF385 U 20 -        DF386 U 17 -        DF387 U 6 -
+DF390 I 22 0.1      DF394 U 64 -        DF395 U 32 -        DF397 U 8 -         DF398 U 10 2**-10
+DF399 I 14 -        DF400 I 15 2**-24   DF401 I 22 2**-29   DF402 U 4 -         DF403 U 6 -
+DF404 I 15 0.0001   DF405 I 20 2**-29   DF406 I 24 2**-31   DF407 U 10 -        DF408 U 10 2**-4
+DF416 U 3 -         DF420 U 1 -         DF423 I 16 0.02     DF424 I 16 0.02     DF425 I 16 0.02
+DF426 I 16 0.02     DF427 U 30 -        DF428 U 30 -        DF546 U 30 -
+IDF003 U 20 -       IDF010 U 6 -        IDF011 U 6 -        IDF013 I 22 0.1     IDF014 I 20 0.4
+IDF015 I 20 0.4     IDF016 I 21 0.001   IDF017 I 19 0.004   IDF018 I 19 0.004   IDF019 I 22 0.1
+IDF020 I 21 0.001   IDF021 I 27 0.00002 IDF022 I 22 0.1     IDF023 U 5 -        IDF025 I 14 0.01
+IDF028 I 20 0.0001  IDF035 U 2 -        IDF036 U 8 10       IDF037 U 4 -        IDF038 U 4 -
+IDF039 I 16 0.005   IDF040 I 16 0.005
+"""
+
+
+def field_pins():
+    """{name: (kind, width, resolution or None)}"""
+    toks = _FIELD_PINS.split()
+    out = {}
+    for i in range(0, len(toks), 4):
+        name, kind, width, res = toks[i:i + 4]
+        out[name] = (kind, int(width), None if res == "-" else eval(res))  # noqa: the expressions above
+    return out
+
+
+FIELD_PINS = field_pins()
+KIND_TY = {"U": "uint", "I": "int", "S": "snt"}
+
+
+def res_json(r):
+    """a resolution in the translator's form (harness/gen_tables.py)"""
+    if isinstance(r, int):
+        return ["none"] if r in (0, 1) else ["int", r]
+    if r in (0, 1):
+        return ["none"]
+    n, d = float(r).as_integer_ratio()
+    return ["flt", n, d]
+
+
+if __name__ == "__main__":
+    import os
+    import sys
+    write_lean(sys.argv[1])
+    write_fields_lean(os.path.join(os.path.dirname(sys.argv[1]), "Fields.lean"))
